@@ -162,6 +162,10 @@ def allowed_st(S, cfg, ty, o, ovr, extras):
         for t, e in zip(ty[1], items_of(o) or []):
             out |= allowed_st(S, cfg, t, e, ovr, extras)
         return out
+    if k == "nt":
+        for f, e in zip(w["classes"][ty[1]]["fields"], items_of(o) or []):
+            out |= allowed_st(S, cfg, f["ty"], e, ovr, extras)
+        return out
     if k in ("dict", "map", "mmap"):
         if isinstance(o, dict):
             for a, b in o.items():
@@ -219,6 +223,11 @@ def identity_un(S, cfg, ty, ovr, depth=0):
         return identity_un(S, cfg, ty[1], ovr, depth) if cfg["gen"] else True
     if k == "tup":
         return not cfg["gen"]          # BaseConverter registers no hook for heterogeneous tuples
+    if k == "nt":
+        # "a named tuple that needs no conversion may pass through as the tuple it is": every field hook is the identity
+        # (a BaseConverter has no NamedTuple hook at all)
+        return (not cfg["gen"]) or (depth < 30 and all(identity_un(S, cfg, f["ty"] or "any", ovr, depth + 1)
+                                                       for f in w["classes"][ty[1]]["fields"]))
     if k == "td":
         if not cfg["gen"]:
             return False               # a BaseConverter treats the class as a mapping: fresh dict
@@ -233,6 +242,9 @@ def allowed_un_any(S, cfg, o, ovr, extras):
     if isinstance(o, Opaque):
         return {id(o)}
     out = set()
+    ci = S.R._cls_index.get(o.__class__)
+    if ci is not None and S.world["classes"][ci]["kind"] == "nt":
+        return allowed_un(S, cfg, ("nt", ci), o, ovr, extras)
     if isinstance(o, (list, tuple, collections.deque, set, frozenset)):
         for e in o:
             out |= allowed_un_any(S, cfg, e, ovr, extras)
@@ -266,6 +278,11 @@ def allowed_un(S, cfg, ty, o, ovr, extras):
     if k == "tup":
         for t, e in zip(ty[1], items_of(o) or []):
             out |= sub(t, e)
+        return out
+    if k == "nt":
+        # (Converter, some field needs conversion: a fresh tuple of the items unstructured by their declared types)
+        for f, e in zip(w["classes"][ty[1]]["fields"], items_of(o) or []):
+            out |= allowed_un(S, cfg, f["ty"], e, ovr, extras)
         return out
     if k in ("dict", "map", "mmap"):
         if isinstance(o, dict):
@@ -547,7 +564,7 @@ def sanitize(w):
 
 
 def my_worlds(chk, drv, n_worlds):
-    G = gen.Gen(chk.rng, unions=True)
+    G = gen.Gen(chk.rng, unions=True, nt=True)
     made = attempts = 0
     while made < n_worlds and attempts < n_worlds * 3:
         attempts += 1
@@ -575,7 +592,7 @@ def stream_plain(chk, drv, stats, corr_fail, n_worlds):
                 if obs.outcome != "ok":
                     continue
                 try:
-                    u_abs = S.R.abs(obs.res)
+                    u_abs = S.R.abs_un(obs.res)
                 except Unrepresentable:
                     continue
                 for kind, p, _pv in payload_variants(chk, G, S, w, u_abs, 2, 1, extra_keys=chk.rng.random() < 0.3):
@@ -649,7 +666,7 @@ def stream_td(chk, drv, stats, corr_fail, n_worlds):
                 if obs.outcome != "ok":
                     continue
                 try:
-                    u_abs = S.R.abs(obs.res)
+                    u_abs = S.R.abs_un(obs.res)
                 except Unrepresentable:
                     continue
                 for kind, p, _pv in payload_variants(chk, G, S, w, u_abs, 2, 0, extra_keys=True):
